@@ -96,6 +96,7 @@ class Online(object):
         if r.connected():
             c.append(("lost", w["lost"]))
         c += [("disconnect", w["disconnect"]), ("close", w["close"]), ("meta", w["meta"]), ("wfail", w["wfail"])]
+        c.append(("stubborn", 0.25 if (r.attempt_pending() or r.world.net.stubborn) else 0.04))
         # rarely: an event the state does not enable (both sides must call it a no-op)
         c += [("connOk", 0.05), ("lost", 0.05), ("rawbytes", 0.05)]
         return c
@@ -122,15 +123,18 @@ class Online(object):
             hook = ""
             if rng.random() < self.hook_rate:
                 # the caller's callback on this Deferred calls back into the broker client
-                m = rng.random()
-                if m < 0.12:
-                    hook = " hook close"
-                elif m < 0.3:
-                    hook = " hook disconnect"
-                elif m < 0.65:
-                    hook = " hook cancel %d" % rng.choice(self.pool)
-                else:
-                    hook = " hook make %d %d" % (rng.choice(self.pool + [rng.randrange(20, 30)]), 0 if rng.random() < 0.15 else 1)
+                acts = []
+                for _ in range(rng.choice([1, 1, 1, 2, 3])):
+                    m = rng.random()
+                    if m < 0.12:
+                        acts.append("close")
+                    elif m < 0.3:
+                        acts.append("disconnect")
+                    elif m < 0.65:
+                        acts.append("cancel %d" % rng.choice(self.pool))
+                    else:
+                        acts.append("make %d %d" % (rng.choice(self.pool + [rng.randrange(20, 30)]), 0 if rng.random() < 0.15 else 1))
+                hook = " hook " + " ; ".join(acts)
             # a request that expects no reply fires while the queue is written: the interesting place for a callback
             p_noreply = 0.35 if (hook and not r.connected()) else 0.12
             self.emit("make %d %d%s" % (cid, 0 if rng.random() < p_noreply else 1, hook))
@@ -180,6 +184,10 @@ class Online(object):
             self.emit("bytes %s" % hx(bytes(rng.randrange(256) for _ in range(rng.randrange(1, 9)))))
         elif k == "meta":
             self.emit("meta %d %d" % (rng.randrange(1, 4), rng.choice([9092, 9093, 1234])))
+        elif k == "stubborn":
+            self.emit("stubborn %d" % (0 if r.world.net.stubborn else 1))
+            if r.world.net.stubborn and r.attempt_pending() and rng.random() < 0.7:
+                self.emit("close")  # the case the switch exists for: close() while the attempt is pending
         elif k == "wfail":
             self.emit("wfail %d" % (0 if r.wfail else 1))
             if r.wfail:
